@@ -387,9 +387,12 @@ func ruleLexTcol(c *Ctx) []Obligation {
 		if fn.Pkg == nil || shortPkg(fn.Pkg.Pkg.Path()) != "yang" || fn.Blocks == nil {
 			continue
 		}
+		if helperOf(fn) != nil {
+			continue // a private helper's stores happen in its caller (inline.go)
+		}
 		cm := classMap{}
 		forward := false
-		for _, st := range storesToField(fn, fTcol) {
+		for _, st := range c.storesToFieldDeep(fn, fTcol) {
 			fp := exprFP(st.Val, 5)
 			if strings.Contains(fp, "+") {
 				forward = true
